@@ -125,6 +125,18 @@ def _alt_keypad_code_consumed(ctx, rep):
         ok = len(app) == 1 and len(clr) == 1
     rep.ob('altcode.consumed-once', 'Keyboard._key_up: the Alt+keypad code is appended and the accumulated digits are cleared together', ok,
            'the digits stay accumulated: the next release of Alt inserts the same character again', ctx.where(ku))
+    # a key pressed with Alt held is swallowed only when it is a keypad digit (the KEYPAD lookup succeeded); any other
+    # Alt+key is an extended keystroke and goes on to the buffer
+    kd = ctx.fn(KB + ':Keyboard._key_down')
+    fld = ctx.flow(kd)
+    early = [r for r in own_nodes(kd) if isinstance(r, ast.Return) and any('scancode.ALT in mods' in f.text and f.pol for f in fld.facts(r))]
+    looked = [s for s in own_nodes(kd) if isinstance(s, (ast.AugAssign, ast.Assign)) and 'KEYPAD[' in norm(s.value)]
+    rep.floor('altcode.only-keypad-digits-swallowed', len(early) + len(looked), 2, 'early return and keypad lookup in _key_down')
+    for r in early:
+        h = fld.in_try_catching(r, ('KeyError',))
+        same = h is not None and any(fld.in_try_catching(s, ('KeyError',)) is h and s.lineno < r.lineno for s in looked)
+        rep.ob('altcode.only-keypad-digits-swallowed', '_key_down: the return under Alt follows a successful KEYPAD lookup', same,
+               'every key pressed with Alt held returns early: Alt+letter keystrokes never reach the buffer', ctx.where(r))
 
 
 def check(ctx, rep):
@@ -205,6 +217,17 @@ def check(ctx, rep):
            any(norm(a_) == 'self._buffer[self._ring_index(index)] = (c, scan)' for a_ in own_nodes(rw) if isinstance(a_, ast.Assign)), '', ctx.where(rr))
 
 
+def _return_after_try(fn):
+    for n in ast.walk(fn):
+        if isinstance(n, ast.If) and 'scancode.ALT in mods' in norm(n.test):
+            t = [x for x in n.body if isinstance(x, ast.Try)][0]
+            r = [x for x in t.body if isinstance(x, ast.Return)][0]
+            t.body.remove(r)
+            n.body.append(r)
+            return True
+    return False
+
+
 def variants(ctx):
     Va = mu.Variant
 
@@ -212,6 +235,7 @@ def variants(ctx):
         return lambda tree: f(mu.find_def(tree, f_name))
 
     return [
+        Va('alt-swallows-every-key', 'break', KB, in_fn('Keyboard._key_down', _return_after_try), expect='altcode.only-keypad-digits-swallowed'),
         mu.Variant('alt-keypad-digits-not-cleared', 'break', KB,
                    lambda tree: mu.remove_stmt(mu.find_def(tree, 'Keyboard._key_up'), lambda st: isinstance(st, ast.Assign) and norm(st.targets[0]) == 'self.keypad_ascii'), expect='altcode.consumed-once'),
         Va('empty-window-folded-onto-full', 'break', KB,
